@@ -8,7 +8,7 @@ export CARGO_NET_OFFLINE=true CARGO_TARGET_DIR=/tmp/seed-target RUST_BACKTRACE=0
 OUT=/verif/seeded/$NAME; mkdir -p "$OUT"
 LOG="$OUT/confirm.log"; : > "$LOG"
 cd "$WT" || exit 2
-git checkout -q -- . ; git clean -qfd -e SEEDED
+git checkout -q -- . ; git clean -qfd -e "SEEDED*"
 [ -f SEEDED/patch.diff ] && [ -f SEEDED/demo.diff ] || { echo "REJECTED $NAME: missing files"; exit 1; }
 # which crate / test does the demo add?
 DEMOFILE=$(grep -E '^\+\+\+ b/' SEEDED/demo.diff | head -1 | sed 's#^+++ b/##')
@@ -24,7 +24,7 @@ if cargo test --offline -p "$CRATE" $TESTARG >> "$LOG" 2>&1; then B=pass; else B
 git apply -R SEEDED/patch.diff
 echo "== (c) demo without change" >> "$LOG"
 if cargo test --offline -p "$CRATE" $TESTARG >> "$LOG" 2>&1; then C=pass; else C=fail; fi
-git checkout -q -- . ; git clean -qfd -e SEEDED
+git checkout -q -- . ; git clean -qfd -e "SEEDED*"
 cp SEEDED/patch.diff SEEDED/demo.diff "$OUT/"; cp SEEDED/NOTES.md "$OUT/" 2>/dev/null
 echo "suite_with_change=$A demo_with_change=$B demo_without_change=$C" | tee -a "$LOG"
 if [ "$A" = pass ] && [ "$B" = fail ] && [ "$C" = pass ]; then echo "CONFIRMED $NAME"; else echo "REJECTED $NAME"; fi
